@@ -14,7 +14,7 @@ import (
 func init() {
 	register(&Property{
 		ID:        "C12",
-		Technique: "path ordering (typestate) over Close/Serve/ServeOne, goroutine inventory with termination witnesses, close-once classification of every close(ch)",
+		Technique: "path ordering (typestate) over Close/Serve/ServeOne, goroutine inventory with termination witnesses, close-once classification of every close(ch); tested-then-dropped error (contradiction) check and interprocedural lock-pairing check over the packages the property is anchored in; wait-group accounting",
 		Explanation: "Structural conditions of 'closing always completes and releases everything': " +
 			"(R1) Manager.Close terminates, then waits for the stream-manager goroutine, the reader goroutine and the transport-closed signal, and returns the transport's close error; both goroutines announce their exit by a first-registered defer; " +
 			"(R2) every `go` statement in the library has a resolved target and a termination witness of a reviewed kind; " +
@@ -408,7 +408,79 @@ func c12r3(c *an.Ctx) {
 	c.Check(okAdd && waits, "Tracker | one wait-group unit per started goroutine: Add(1) before go, Done on every return of the goroutine, Wait waits for the group", c.P.Pos(run.Pos()), "", "the tracker's wait group does not count its goroutines: Serve's deferred Wait returns while connections are still being served (or the counter goes negative)")
 }
 
-func c12r4(c *an.Ctx) { closeOnce(c, "") }
+// streamBufferClose: Close marks the buffer closed under its mutex and wakes the waiters afterwards; Wait gives up
+// on that flag. Without the flag the connection reader stays parked in Wait after Close.
+func streamBufferClose(c *an.Ctx) {
+	a := A(c)
+	closed := a.field("drpcmanager", "streamBuffer", "closed")
+	cl := c.Fn("drpcmanager", "(*streamBuffer).Close")
+	c.Analysed(cl)
+	var set ssa.Instruction
+	var wakes []ssa.Instruction
+	an.Instrs(cl, func(in ssa.Instruction) {
+		if st, ok := in.(*ssa.Store); ok {
+			if fv := an.PathOf(st.Addr).Last(); fv != nil && fv.Origin() == closed.Origin() {
+				if k, isK := st.Val.(*ssa.Const); isK && k.Value != nil && k.Value.String() == "true" {
+					set = in
+				}
+			}
+		}
+		if ci, ok := in.(ssa.CallInstruction); ok {
+			if f := ci.Common().StaticCallee(); f != nil && f.Name() == "Broadcast" {
+				wakes = append(wakes, in)
+			}
+			if b, isB := ci.Common().Value.(*ssa.Builtin); isB && b.Name() == "close" {
+				wakes = append(wakes, in) // waiters parked on a channel
+			}
+		}
+	})
+	ok := set != nil
+	if ok {
+		isWake := map[ssa.Instruction]bool{}
+		for _, w := range wakes {
+			isWake[w] = true
+		}
+		// on every way out: the flag was set and then a wake-up issued, or the buffer was already closed
+		flow := &an.Flow{Fn: cl, Init: []string{"open"},
+			Step: func(st string, in ssa.Instruction) []string {
+				switch {
+				case in == set:
+					return []string{"set"}
+				case isWake[in] && st == "set":
+					return []string{"woken"}
+				case isWake[in] && st == "open":
+					return []string{"woken-before-set"}
+				}
+				return nil
+			},
+			StepDefer: func(st string, d *ssa.Defer) []string { return nil },
+			Branch: func(st string, br *ssa.If, idx int) (string, bool) {
+				cond, neg := an.StripNot(br.Cond)
+				if isLoadOfField(cond, closed) && st == "open" {
+					if (idx == 0) != neg {
+						return "already", true
+					}
+				}
+				return st, true
+			},
+		}
+		res := flow.Run()
+		for _, ret := range an.Returns(cl) {
+			if !res.Reachable(ret.Block()) {
+				continue
+			}
+			for _, st := range res.Before(ret) {
+				// (a wake-up that is conditional on somebody waiting is fine: the flag is what Wait tests)
+				if st != "woken" && st != "already" && st != "set" {
+					ok = false
+				}
+			}
+		}
+	}
+	c.Check(ok, "(*streamBuffer).Close | marks the buffer closed on every path, before any wake-up", c.P.Pos(cl.Pos()), "", "Close does not record that the buffer is closed before it wakes the waiters (or does not wake them): the connection reader parked in Wait goes back to sleep and Manager.Close waits for it forever")
+}
+
+func c12r4(c *an.Ctx) { closeOnce(c, ""); streamBufferClose(c) }
 
 // closeOnce classifies every close(ch) of the library (optionally restricted to one package).
 func closeOnce(c *an.Ctx, onlyPkg string) {
